@@ -37,6 +37,9 @@ def all_pairs(names, verbs=("connect", "pconnect")):
             for tok in (0, 1):
                 for verb in verbs:
                     ops.append("lasp %s token=%d ap=%s pre=%s" % (verb, tok, enc(names, a), enc(names, p)))
+                if tok:
+                    # the same with the application in high-security mode (via the processor path)
+                    ops.append("lasp %s token=1 hs=1 ap=%s pre=%s" % (verbs[-1], enc(names, a), enc(names, p)))
     return ops
 
 
@@ -54,7 +57,10 @@ def plan(ctx):
         a = [rng.choice(AG) for _ in nm]
         p1 = [rng.choice(AG) for _ in nm]
         p2 = [rng.choice(AG) for _ in nm]
-        ops.append("lasp pconnect2 token=%d ap=%s pre1=%s pre=%s" % (rng.choice([1, 1, 1, 0]), enc(nm, a), enc(nm, p1), enc(nm, p2)))
+        if rng.random() < 0.4:
+            # the collector changes only the `required` flags between the two attempts (same names, same enabled values)
+            p2 = [None if x is None else (x[0], rng.choice([0, 1])) for x in p1]
+        ops.append("lasp pconnect2 token=%d first=%s ap=%s pre1=%s pre=%s" % (rng.choice([1, 1, 1, 0]), rng.choice(["ok", "fail"]), enc(nm, a), enc(nm, p1), enc(nm, p2)))
     seqs = [("lasp-%d" % i, ops[i:i + 200]) for i in range(0, len(ops), 200)]
     return [("corpus", corpus(ID)), ("enum", seqs)]
 
